@@ -1616,10 +1616,23 @@ def run_hist_stream(ctx, nhist, depth, props, weights, stream='full_hist', tampe
                         ordn = rng.randrange(len(sids)); sid = sids[ordn]
                     else:
                         ordn = len(sids) + 3; sid = '12345'
-                    rc, doc, out, err = sb.cli_json(['rollback', '--to', sid, '--yes'])
-                    after = world_tree(sb)
+                    dry_first = 'C06' in props and rng.random() < 0.25
+                    done_by_dry = False
+                    if dry_first:
+                        # `--dry-run rollback`: either nothing at all happens (no file, no record) or it is a rollback like any
+                        # other — a record that says "rolled back" next to an untouched disk is neither
+                        rc, doc, out, err = sb.cli_json(['--dry-run', 'rollback', '--to', sid, '--yes'])
+                        after = world_tree(sb)
+                        tags.append('rollback:dry_run_first')
+                        if after == before and list_snapshot_ids(sb) == sids:
+                            tags.append('rollback:dry_run_was_noop')
+                        else:
+                            done_by_dry = True
+                    if not done_by_dry:
+                        rc, doc, out, err = sb.cli_json(['rollback', '--to', sid, '--yes'])
+                        after = world_tree(sb)
                     ok = bool(doc and doc.get('ok'))
-                    rec.update({'to_ordinal': ordn, 'ok': ok})
+                    rec.update({'to_ordinal': ordn, 'ok': ok, 'dry_run_flag': done_by_dry})
                     uni = hist_universe([before, after], [], [])
                     steps.append('(HRollback %d %s %s)' % (ordn, cq.cbool(ok), c_obs_after(uni, after, ids)))
                     tgt_is_rb = ordn < len(hs.snaps) and hs.snaps[ordn]['kind'] == 'rollback'
